@@ -322,7 +322,7 @@ class ConstantInt(ConstantOpcode, ABC):
 
     @classmethod
     def validate(cls, obj):
-        if not isinstance(obj, int):
+        if not isinstance(obj, int) or isinstance(obj, bool):
             raise ValueError(f"{cls.__name__} can only be instantiated from integers, not {obj!r}")
         elif cls.num_bytes not in cls.struct_types:
             raise TypeError(
@@ -1704,7 +1704,10 @@ class Int(ConstantOpcode):
 
     @classmethod
     def validate(cls, obj):
-        _ = int(obj)
+        # only genuine integers: int(obj) also succeeds for '123', b'12', 1.5 and True, which would
+        # silently turn those constants into a different value
+        if not isinstance(obj, int) or isinstance(obj, bool):
+            raise ValueError(f"{cls.__name__} can only be instantiated from integers, not {obj!r}")
         return obj
 
 
